@@ -39,3 +39,16 @@ Definition capture_typing_witness : fcprog :=
     [mkfdef "h" [mkfb "n" FPrd FI64] FI64
        (FLabel "a" (FLet "a" FI64 (FOp (v_prd "n" FI64) FSum (FLit 1)) (FOp (v_prd "a" FI64) FProd (FLit 2)) (Some FI64)) (Some FI64));
      mkfdef "main" [] FI64 (FPrint true (FCall "h" [FLit 4] (Some FI64)) (FLit 0) (Some FI64))].
+
+(* corpus/fun/call_main_tail.sc as the type checker annotates it (former finding call-to-main, repaired in /repo by
+   f929eb7; here main is called in tail position only).  modelrun wt-stages compares this value with the real
+   CheckedProgram of that file on every run; the non-vacuity statements of Proof/WtExamples3.v are about it. *)
+Definition call_main_tail_witness : fcprog :=
+  mkfcprog [] []
+    [mkfdef "main" [mkfb "n" FPrd FI64] FI64
+       (FIfC FEq (FVar "n" (Some FI64) (Some FPrd)) None
+          (FLit 0)
+          (FPrint true (FVar "n" (Some FI64) (Some FPrd))
+             (FCall "main" [FLit 0] (Some FI64))
+             (Some FI64))
+          (Some FI64))].
